@@ -1,6 +1,8 @@
 package tf
 
 import (
+	"regexp"
+	_ "embed"
 	"encoding/json"
 	"fmt"
 	"go/token"
@@ -190,6 +192,17 @@ func RunProperty(p *Program, prop, tier string, known *KnownFile) *PropertyResul
 				n++
 			}
 		}
+		// sub-rules that had instances on the confirmed tree must still have at least one: a renamed anchor must not turn
+		// a sub-rule into a vacuous pass
+		have := SubruleSegments(ctx.Obls)
+		if FreezeInto != nil {
+			FreezeInto[r.Name] = mergeSegs(FreezeInto[r.Name], have)
+		}
+		for _, seg := range frozenSubrules[r.Name] {
+			if !containsStr(have, seg) && !(r.ThoroughOnly && tier != "thorough") {
+				res.Failures = append(res.Failures, fmt.Sprintf("sub-rule %s/%s matched no instance (it had instances on the confirmed tree): the sub-rule lost its anchors", r.Name, seg))
+			}
+		}
 		res.RuleDocs[r.Name] = r.Doc
 		res.RuleCounts[r.Name] = n
 		if n < r.Min {
@@ -360,4 +373,60 @@ func (r *PropertyResult) Emit(p *Program, verifDir string, known *KnownFile, see
 func oneLine(s string) string {
 	s = strings.ReplaceAll(s, "\n", " ")
 	return s
+}
+
+//go:embed subrules.json
+var subrulesJSON []byte
+
+var frozenSubrules = func() map[string][]string {
+	m := map[string][]string{}
+	_ = json.Unmarshal(subrulesJSON, &m)
+	return m
+}()
+
+// FreezeInto, when non-nil, collects the sub-rule segments seen in this run (tfcheck -freeze).
+var FreezeInto map[string][]string
+
+var segNum = regexp.MustCompile(`#\d+$`)
+
+// SubruleSegments returns the distinct first key components (after the rule name) of the non-info obligations.
+func SubruleSegments(obls []*Obligation) []string {
+	seen := map[string]bool{}
+	var out []string
+	for _, o := range obls {
+		if o.Status == Info {
+			continue
+		}
+		k := strings.TrimPrefix(o.Key, o.Rule+"/")
+		if i := strings.Index(k, "/"); i >= 0 {
+			k = k[:i]
+		}
+		k = segNum.ReplaceAllString(k, "")
+		if k == "anchor" || seen[k] {
+			continue
+		}
+		seen[k] = true
+		out = append(out, k)
+	}
+	sort.Strings(out)
+	return out
+}
+
+func containsStr(l []string, s string) bool {
+	for _, x := range l {
+		if x == s {
+			return true
+		}
+	}
+	return false
+}
+
+func mergeSegs(a, b []string) []string {
+	for _, x := range b {
+		if !containsStr(a, x) {
+			a = append(a, x)
+		}
+	}
+	sort.Strings(a)
+	return a
 }
